@@ -35,9 +35,24 @@ class attribute or an imported module, every memoising decorator and every mutab
 in the package is a reviewed site (a cache added at module or class level fails this theorem). -/
 theorem module_state_sites_reviewed : ∀ s ∈ moduleWrites, s ∈ reviewedModuleWrites.map (·.1) := by decide
 
+/-- THE CONTEXT IS GIVEN BACK (structural): every axis generator `iter_*` of XPathContext that moves
+the focus yields only inside a `try` whose `finally` stores the focus back — so a consumer that
+stops early, or a step that raises, leaves the caller's context as it was (CPython closes an
+abandoned generator at once, which runs the `finally`). -/
+theorem context_iterators_restore : ∀ w ∈ contextIterators, iteratorOk w = true := by decide
+
+/-- … and outside xpath_context.py every store to `context.item / axis / position / size /
+variables` and every loop over `context.iter_*()` is on a copy of the context, restored by a
+`finally` of the same function, driven by `select_with_focus`, or an iterator loop covered by
+`context_iterators_restore` — or one of the exactly reviewed sites of `reviewedFocusSites`.  A new
+unprotected site fails this theorem. -/
+theorem focus_sites_protected : ∀ w ∈ focusSites, focusSiteOk w = true := by decide
+
 /-- TEST (literals): the predicate rejects a write to an element from an evaluation function and a
 schema write, and accepts the json-to-xml builder. -/
-example : treeWriteOk ("element", "elementpath/xpath2/_xpath2_functions.py", "evaluate__root", "elem.text =") = false ∧
+example : focusSiteOk ("elementpath/xpath2/_xpath2_functions.py", "evaluate__root", "context.item =", "unprotected") = false ∧
+    iteratorOk ("iter_new_axis", "plain") = false ∧ iteratorOk ("iter_product", "no-focus-write") = true ∧
+    treeWriteOk ("element", "elementpath/xpath2/_xpath2_functions.py", "evaluate__root", "elem.text =") = false ∧
     treeWriteOk ("schema", "elementpath/xpath_context.py", "XPathContext.schema", "schema.types[...] =") = false ∧
     treeWriteOk ("element", "elementpath/xpath31/_xpath31_functions.py", "evaluate__json_to_xml.value_to_etree", "elem.text =") = true := by
   decide
